@@ -298,4 +298,90 @@ theorem startsWith_nil_false {p : Txt} (hp : p ≠ []) : startsWith p [] = false
   | nil => exact absurd rfl hp
   | cons x xs => simp [startsWith]
 
+/-! ### a written fixed-field line as the reader sees it -/
+
+theorem lastSolid_append {a b : Txt} (hb : b ≠ []) (h : LastSolid b) : LastSolid (a ++ b) := by
+  intro c hc
+  rw [getLast?_append_ne hb] at hc
+  exact h c hc
+
+theorem mem_blanks {c : Char} {k : Nat} (h : c ∈ blanks k) : c = ' ' := by
+  simp [blanks] at h; exact h.2
+
+theorem mem_padL {c : Char} {w : Nat} {s : Txt} (h : c ∈ padL w s) : c = ' ' ∨ c ∈ s := by
+  rcases List.mem_append.mp h with h | h
+  · exact Or.inl (mem_blanks h)
+  · exact Or.inr h
+
+theorem dec_chars (n : Int) : ∀ c ∈ dec n, c.isDigit = true ∨ c = '-' := by
+  intro c hc
+  by_cases h : 0 ≤ n
+  · exact Or.inl (dec_nonneg_digits h c hc)
+  · rw [dec_neg (by omega)] at hc
+    rcases List.mem_cons.mp hc with rfl | hc
+    · exact Or.inr rfl
+    · exact Or.inl (isDigit_toDigits _ c hc)
+
+/-- a character that is no blank, digit or minus sign does not occur in a written integer field -/
+theorem notin_padL_dec (c : Char) (h1 : c ≠ ' ') (h2 : c.isDigit = false) (h3 : c ≠ '-') (w : Nat) (n : Int) :
+    c ∉ padL w (dec n) := by
+  intro h
+  rcases mem_padL h with h | h
+  · exact h1 h
+  · rcases dec_chars n c h with h | h
+    · rw [h2] at h; exact absurd h (by decide)
+    · exact h3 h
+
+theorem lastSolid_padL_dec (w : Nat) (n : Int) : LastSolid (padL w (dec n)) :=
+  lastSolid_append (dec_ne_nil n) (dec_edge n).2
+
+/-- the data of one written physical line: an 8-column lead, fields of width `w` of which the last
+does not end in white space, then `k` blank columns; no `$`, no comma, within 72 columns -/
+structure FixedLine (w : Nat) (lead : Txt) (S : List Txt) (k : Nat) : Prop where
+  lead8 : lead.length = 8
+  width : ∀ f ∈ S, f.length = w
+  nodollar : '$' ∉ lead ++ S.flatten
+  nocomma : ',' ∉ lead ++ S.flatten
+  solid : LastSolid (lead ++ S.flatten)
+  len72 : 8 + w * S.length + k ≤ 72
+
+theorem flatten_length_uniform (w : Nat) (S : List Txt) (h : ∀ f ∈ S, f.length = w) : S.flatten.length = w * S.length := by
+  induction S with
+  | nil => simp
+  | cons f r ih =>
+      have := ih (fun x hx => h x (by simp [hx]))
+      have hf := h f (by simp)
+      simp only [List.flatten_cons, List.length_append, List.length_cons, this, hf, Nat.mul_add]
+      omega
+
+theorem FixedLine.length_le {w : Nat} {lead : Txt} {S : List Txt} {k : Nat} (h : FixedLine w lead S k) :
+    (lead ++ S.flatten ++ blanks k).length ≤ 72 := by
+  have := flatten_length_uniform w S h.width
+  have := h.len72
+  have := h.lead8
+  simp only [List.length_append, blanks_length]
+  omega
+
+theorem FixedLine.modeOf {w : Nat} {lead : Txt} {S : List Txt} {k : Nat} (h : FixedLine w lead S k) :
+    modeOf (lead ++ S.flatten ++ blanks k) = if lead.contains '*' then .f16 else .f8 := by
+  have hc : (lead ++ S.flatten ++ blanks k).contains ',' = false := by
+    rw [List.contains_eq_mem]
+    simp only [decide_eq_false_iff_not]
+    intro hm
+    rcases List.mem_append.mp hm with hm | hm
+    · exact h.nocomma hm
+    · exact absurd (mem_blanks hm) (by decide)
+  unfold PyYetiVerif.Bulk.modeOf
+  rw [hc, List.take_of_length_le h.length_le, rstrip_append_blanks, rstrip_edge h.solid]
+  have : (lead ++ S.flatten).take 8 = lead := by rw [← h.lead8, List.take_left]
+  simp [this]
+
+theorem FixedLine.fields {w : Nat} {lead : Txt} {S : List Txt} {k : Nat} (h : FixedLine w lead S k)
+    (m : Mode) (hm : m ≠ .comma) (hw : w = (if m = .f16 then 16 else 8)) (first : Bool) :
+    lineFields m first (lead ++ S.flatten ++ blanks k) = S.map nasScan :=
+  lineFields_fixed_blanks m hm first lead h.lead8 S k w hw h.width h.length_le h.nodollar h.solid
+
+theorem isCont_G (m : Mode) (r : Txt) : isCont m ('G' :: r) = false := by
+  cases m <;> simp [isCont, Mode.conchar]
+
 end PyYetiVerif.Bulk
